@@ -95,6 +95,37 @@ theorem val_inst (p : List Char) (t : List Val) (e : Env) : (⟨p, t.map Term.va
   | nil => rfl
   | cons x xs ih => rw [List.map_cons, List.map_cons, ih]; rfl
 
+theorem agg_bodyHolds (M : Interp) (e : Env) (h : Head) (b : List SLit) (aggs : List Agg) :
+    ({ head := h, body := b, aggs := aggs } : Rule).bodyHolds M e ↔
+      (∀ l ∈ b, l.holds M e) ∧ ∀ a ∈ aggs, a.holds M (b.flatMap SLit.vars) e := Iff.rfl
+
+theorem aggCmp_negate (fn : AggFn) (op : CmpOp) (v : Option Int) (b : Int) :
+    aggCmp fn op.negate v b = !aggCmp fn op v b := by
+  cases v with
+  | some x => simp only [aggCmp]; exact CmpOp.eval_negate op _ _
+  | none => cases fn <;> cases op <;> rfl
+
+theorem SLit.vars_negate (l : SLit) : l.negate.vars = l.vars := by
+  cases l <;> rfl
+
+theorem Agg.negOp_holds_iff (M : Interp) (gl : List Nat) (e : Env) (a : Agg) :
+    ¬ ({ a with op := a.op.negate } : Agg).holds M gl e ↔ a.always M gl e := by
+  unfold Agg.holds Agg.always Agg.tupleAt
+  constructor
+  · intro h L hnd hL b hb
+    apply Classical.byContradiction
+    intro hc
+    apply h
+    refine ⟨L, hnd, hL, b, hb, ?_⟩
+    show aggCmp a.fn a.op.negate (a.fn.value L) b = true
+    rw [aggCmp_negate]
+    simpa using hc
+  · rintro h ⟨L, hnd, hL, b, hb, hc⟩
+    have h1 := h L hnd hL b hb
+    have h2 : aggCmp a.fn a.op.negate (a.fn.value L) b = true := hc
+    rw [aggCmp_negate, h1] at h2
+    exact Bool.noConfusion h2
+
 /-- the rules of a sentence are satisfied exactly when the sentence is respected -/
 theorem rules_sat (M : Interp) (σ : Sentence) : (∀ r ∈ σ.rules, RuleSat M r) ↔ σ.sat M := by
   cases σ with
@@ -150,6 +181,46 @@ theorem rules_sat (M : Interp) (σ : Sentence) : (∀ r ∈ σ.rules, RuleSat M 
         hb _ (List.mem_append_left _ (List.mem_append_right _ (List.mem_singleton.mpr rfl)))
       rw [SLit.holds_negate] at hneg
       exact hneg (h e hg hc)
+  | aggProhibited aggs cmps conds =>
+    simp only [Sentence.rules, Sentence.sat, List.mem_singleton, forall_eq, RuleSat, agg_bodyHolds]
+    constructor
+    · intro h e hc hm ha
+      apply h e
+      refine ⟨fun l hl => ?_, ha⟩
+      rcases List.mem_append.mp hl with hl | hl
+      · exact (litsOf_holds M e conds).mpr hc l hl
+      · exact hm l hl
+    · rintro h e ⟨hb, ha⟩
+      exact h e ((litsOf_holds M e conds).mp (fun l hl => hb l (List.mem_append_left _ hl)))
+        (fun l hl => hb l (List.mem_append_right _ hl)) ha
+  | aggRequired a conds =>
+    simp only [Sentence.rules, Sentence.sat, List.mem_singleton, forall_eq, RuleSat, agg_bodyHolds, litsOf_holds]
+    constructor
+    · intro h e hc
+      rw [← Agg.negOp_holds_iff]
+      intro hn
+      exact h e ⟨hc, hn⟩
+    · rintro h e ⟨hc, hn⟩
+      exact (Agg.negOp_holds_iff M _ e a).mpr (h e hc) hn
+  | aggRequired2 aggs c conds =>
+    simp only [Sentence.rules, Sentence.sat, List.mem_singleton, forall_eq, RuleSat, agg_bodyHolds]
+    have hv : (litsOf conds ++ [c.negate]).flatMap SLit.vars = (litsOf conds ++ [c]).flatMap SLit.vars := by
+      simp [List.flatMap_append, SLit.vars_negate]
+    rw [hv]
+    constructor
+    · intro h e hc ha
+      apply Classical.byContradiction
+      intro hn
+      apply h e
+      refine ⟨fun l hl => ?_, ha⟩
+      rcases List.mem_append.mp hl with hl | hl
+      · exact (litsOf_holds M e conds).mpr hc l hl
+      · rw [List.mem_singleton.mp hl, SLit.holds_negate]; exact hn
+    · rintro h e ⟨hb, ha⟩
+      have hc := (litsOf_holds M e conds).mp (fun l hl => hb l (List.mem_append_left _ hl))
+      have hneg : c.negate.holds M e := hb _ (List.mem_append_right _ (List.mem_singleton.mpr rfl))
+      rw [SLit.holds_negate] at hneg
+      exact hneg (h e hc ha)
 
 /-- the rules of a sentence justify exactly what the sentence gives a reason for -/
 theorem rules_just (M : Interp) (g : GAtom) (σ : Sentence) : (∃ r ∈ σ.rules, RuleJust M r g) ↔ σ.justifies M g := by
@@ -179,6 +250,9 @@ theorem rules_just (M : Interp) (g : GAtom) (σ : Sentence) : (∃ r ∈ σ.rule
       derivedBody_holds]
   | prohibited cs => simp [Sentence.rules, Sentence.justifies, RuleJust]
   | required m conds => simp [Sentence.rules, Sentence.justifies, RuleJust]
+  | aggProhibited aggs cmps conds => simp [Sentence.rules, Sentence.justifies, RuleJust]
+  | aggRequired a conds => simp [Sentence.rules, Sentence.justifies, RuleJust]
+  | aggRequired2 aggs c conds => simp [Sentence.rules, Sentence.justifies, RuleJust]
 
 /-- the direct reading of a specification is the supported-model reading of its compiled program -/
 theorem supp_compile_iff (s : Spec) (M : Interp) : Supp (compile s) M ↔ RefModel s M := by
